@@ -91,6 +91,8 @@ def ensure():
                 self._run_id = len(runs)
                 runs.append({
                     "algorithm": type(self).__name__, "task": type(self._task).__name__,
+                    "algo_index": self._config.c,
+                    "task_index": ((self._task.data or {}).get("desc") or {}).get("objective", {}).get("tag"),
                     "params": {k: v for k, v in self._config.model_dump().items() if k != "table"},
                     "mode": str(self._mode), "workers": self._workers, "ctx": t.ctx.pid if t else -1,
                     "ctx_parent": t.ctx.parent if t else None, "values": [], "init_size": len(self._population)})
